@@ -30,10 +30,11 @@ const dbReuse = 400
 
 // world owns the real store; every program gets its own parentless base block holding the deployed code.
 type world struct {
-	tag string
-	dir string
-	db  protocol.ChainDB
-	n   int
+	tag   string
+	dir   string
+	db    protocol.ChainDB
+	n     int
+	lbase int // length of the short code images of the program deployed last (the tracer classifies jumps with it)
 }
 
 func (w *world) close() {
@@ -204,13 +205,23 @@ func mkEvent(t, k, to, ctx string, v int, s string, g, c uint64, d int, m string
 	if c > 1<<30 {
 		ci = -2
 	}
-	return obsEvent{"t": t, "k": k, "to": to, "ctx": ctx, "v": v, "s": s, "g": gi, "c": ci, "d": d, "m": m, "rl": 0, "cf": false}
+	return obsEvent{"t": t, "k": k, "to": to, "ctx": ctx, "v": v, "s": s, "g": gi, "c": ci, "d": d, "m": m, "rl": 0, "cf": false, "op": "", "x": false, "pc": -1}
 }
 
-// endEvent: the end of a frame; cf = it is a creation frame, rl = length of the data it returns (the code to deposit)
-func (t *frameTracer) endEvent(k, to, ctx string, g, c uint64, depth int, m string, rl int) obsEvent {
+func smallPC(pc uint64) int {
+	if pc > 1<<30 {
+		return -2
+	}
+	return int(pc)
+}
+
+// endEvent: the end of a frame; cf = it is a creation frame, rl = length of the data it returns (the code to deposit);
+// op = the opcode it ended at, x = the opcode was being executed (an error: raised by the operation itself, not by the
+// checks before it)
+func (t *frameTracer) endEvent(k, to, ctx string, g, c uint64, depth int, m string, rl int, op vm.OpCode, x bool, pc uint64) obsEvent {
 	e := mkEvent("end", k, to, ctx, 0, "", g, c, depth-1, m)
 	e["rl"], e["cf"] = rl, t.kindAt[depth] == "create"
+	e["op"], e["x"], e["pc"] = op.String(), x, smallPC(pc)
 	return e
 }
 
@@ -222,6 +233,7 @@ type frameTracer struct {
 	maxDepth int
 	nops     int
 	full     bool // record the event list (tree programs); otherwise only depth / op count / touched accounts
+	lbase    int  // length of the short code images (classification of jumps)
 	touched  map[common.Address]map[common.Hash]bool
 }
 
@@ -299,10 +311,19 @@ func (t *frameTracer) CaptureState(env *vm.EVM, pc uint64, op vm.OpCode, gas, co
 	t.sync(depth, gas, stack, ctx)
 	d := depth - 1
 	if err != nil {
-		t.evs = append(t.evs, t.endEvent("err", "", ctx, gas, cost, depth, err.Error(), 0))
+		t.evs = append(t.evs, t.endEvent("err", "", ctx, gas, cost, depth, err.Error(), 0, op, false, pc))
 		return nil
 	}
 	switch {
+	case op == vm.JUMP:
+		// a jump of one of the classified destinations: which shape of code runs (read off the code itself), where to
+		if sh := shapeOfCode(contract.Code, t.lbase); sh >= 0 && stack.Back(0).IsUint64() {
+			if dc := destClass(stack.Back(0).Uint64(), pc, t.lbase); dc != "" {
+				e := mkEvent("jump", "", "", ctx, sh, dc, gas, cost, d, "")
+				e["pc"] = smallPC(pc)
+				t.evs = append(t.evs, e)
+			}
+		}
 	case op == vm.SSTORE:
 		t.evs = append(t.evs, mkEvent("sstore", "", "", ctx, smallInt(stack.Back(1)), nameOfSlot(common.BigToHash(stack.Back(0))), gas, cost, d, ""))
 	case op >= vm.LOG0 && op <= vm.LOG4:
@@ -325,11 +346,11 @@ func (t *frameTracer) CaptureState(env *vm.EVM, pc uint64, op vm.OpCode, gas, co
 		t.pend[depth], t.fresh[depth+1], t.kindAt[depth+1] = true, true, "create"
 		t.evs = append(t.evs, mkEvent("call", "create", nameOfAddr(crypto.CreateContractAddress(contract.GetAddress(), txHash)), ctx, smallInt(stack.Back(0)), "", gas, cost, d, ""))
 	case op == vm.STOP:
-		t.evs = append(t.evs, t.endEvent("stop", "", ctx, gas, cost, depth, "", 0))
+		t.evs = append(t.evs, t.endEvent("stop", "", ctx, gas, cost, depth, "", 0, op, false, pc))
 	case op == vm.RETURN:
-		t.evs = append(t.evs, t.endEvent("stop", "", ctx, gas, cost, depth, "", smallInt(stack.Back(1))))
+		t.evs = append(t.evs, t.endEvent("stop", "", ctx, gas, cost, depth, "", smallInt(stack.Back(1)), op, false, pc))
 	case op == vm.SELFDESTRUCT:
-		t.evs = append(t.evs, t.endEvent("suicide", nameOfAddr(common.BigToAddress(stack.Back(0))), ctx, gas, cost, depth, "", 0))
+		t.evs = append(t.evs, t.endEvent("suicide", nameOfAddr(common.BigToAddress(stack.Back(0))), ctx, gas, cost, depth, "", 0, op, false, pc))
 	}
 	return nil
 }
@@ -342,14 +363,14 @@ func (t *frameTracer) CaptureFault(env *vm.EVM, pc uint64, op vm.OpCode, gas, co
 	t.sync(depth, gas, stack, ctx)
 	t.nops--
 	if op == vm.REVERT {
-		t.evs = append(t.evs, t.endEvent("revert", "", ctx, gas, cost, depth, "", 0))
+		t.evs = append(t.evs, t.endEvent("revert", "", ctx, gas, cost, depth, "", 0, op, true, pc))
 		return nil
 	}
 	msg := ""
 	if err != nil {
 		msg = err.Error()
 	}
-	t.evs = append(t.evs, t.endEvent("err", "", ctx, gas, cost, depth, msg, 0))
+	t.evs = append(t.evs, t.endEvent("err", "", ctx, gas, cost, depth, msg, 0, op, true, pc))
 	return nil
 }
 
@@ -388,6 +409,7 @@ func (w *world) call(base common.Hash, to common.Address, input []byte, gas uint
 func (w *world) exec(base common.Hash, kind string, to common.Address, input []byte, gas uint64, value int, full bool, names []string) (res *runResult) {
 	am := account.NewManager(base, w.db)
 	tr := newTracer(full)
+	tr.lbase = w.lbase
 	evm := newEVM(am, tr)
 	res = &runResult{Gas: gas}
 	toName := nameOfAddr(to)
